@@ -15,11 +15,11 @@
 //!   then inspects the directory.
 use repe::value_stream::{AsyncSvsClient, Compression, RouterValueStreamExt, StreamOpts};
 use repe::{
-    AsyncClient, BodyFormat, Client, QueryFormat, RepeError, Router, WebSocketClient, pull_to_beve_file,
+    AsyncClient, BodyFormat, Client, QueryFormat, RepeError, Router, Server, WebSocketClient, WebSocketServer, pull_to_beve_file,
     pull_to_beve_zst_file, pull_to_file, pull_to_file_async, pull_to_file_trailer_verified,
     pull_to_file_trailer_verified_async, pull_to_file_verified_async, pull_value, pull_value_async,
 };
-use repe_verif_harness::net::{read_raw_frame, runtime, start_servers};
+use repe_verif_harness::net::{read_raw_frame, runtime};
 use repe_verif_harness::*;
 use serde::{Deserialize, Serialize};
 use std::collections::HashMap;
@@ -65,10 +65,24 @@ fn router(chunk: usize, comp: bool) -> Router {
 }
 
 /// one blocking TCP server and one WebSocket server per (chunk size, compression)
-fn servers(chunk: usize, comp: bool) -> (SocketAddr, SocketAddr) {
+fn servers(chunk: usize, comp: bool) -> std::io::Result<(SocketAddr, SocketAddr)> {
     static S: OnceLock<Mutex<HashMap<(usize, bool), (SocketAddr, SocketAddr)>>> = OnceLock::new();
     let mut m = S.get_or_init(|| Mutex::new(HashMap::new())).lock().unwrap();
-    *m.entry((chunk, comp)).or_insert_with(|| { let s = start_servers(router(chunk, comp)); (s.tcp, s.ws) })
+    if let Some(a) = m.get(&(chunk, comp)) { return Ok(*a); }
+    let r = router(chunk, comp);
+    let srv = Server::new(r.clone());
+    let l = srv.listen("127.0.0.1:0")?;
+    let tcp = l.local_addr()?;
+    std::thread::Builder::new().spawn(move || { let _ = srv.serve(l); })?;
+    let ws = runtime().block_on(async {
+        let wl = WebSocketServer::listen("127.0.0.1:0").await?;
+        let ws = wl.local_addr()?;
+        let wsrv = WebSocketServer::new(r);
+        tokio::spawn(async move { let _ = wsrv.serve_listener(wl, "/repe").await; });
+        Ok::<_, std::io::Error>(ws)
+    })?;
+    m.insert((chunk, comp), (tcp, ws));
+    Ok((tcp, ws))
 }
 
 // ---- reference pull: the wire bytes of a compressed stream ----------------------
@@ -80,7 +94,7 @@ fn servers(chunk: usize, comp: bool) -> (SocketAddr, SocketAddr) {
 /// Pull the stream by hand (open, next until last) over a clean connection and
 /// return the concatenated response bodies: what a consumer receives.
 fn reference_wire(stream: &[u8], comp: bool) -> Vec<u8> {
-    let (tcp, _) = servers(1 << 20, comp);
+    let (tcp, _) = servers(1 << 20, comp).expect("reference servers");
     let key = register(stream, None);
     let client = Client::connect(tcp).expect("connect");
     let body = beve::to_vec(&OpenReq { resource: key.clone() }).unwrap();
@@ -118,18 +132,18 @@ fn read_ws_frame<R: Read>(r: &mut R) -> std::io::Result<(Vec<u8>, bool)> {
 /// Accept one connection, relay it to `upstream`, and after `quota` server-to-
 /// client messages have been forwarded close the upstream connection and the
 /// client-facing write side; what the client still sends is read and dropped.
-fn spawn_proxy(upstream: SocketAddr, ws: bool, quota: usize) -> SocketAddr {
-    let l = TcpListener::bind("127.0.0.1:0").unwrap();
-    let addr = l.local_addr().unwrap();
-    std::thread::spawn(move || {
+fn spawn_proxy(upstream: SocketAddr, ws: bool, quota: usize) -> std::io::Result<SocketAddr> {
+    let l = TcpListener::bind("127.0.0.1:0")?;
+    let addr = l.local_addr()?;
+    std::thread::Builder::new().spawn(move || {
         let Ok((cl, _)) = l.accept() else { return };
         drop(l);
         let Ok(up) = TcpStream::connect(upstream) else { return };
         cl.set_nodelay(true).ok(); up.set_nodelay(true).ok();
-        let (mut cl_r, mut up_w) = (cl.try_clone().unwrap(), up.try_clone().unwrap());
+        let (Ok(mut cl_r), Ok(mut up_w)) = (cl.try_clone(), up.try_clone()) else { return };
         cl_r.set_read_timeout(Some(Duration::from_secs(20))).ok();
         // client -> server: plain byte relay; keeps draining after the cut
-        std::thread::spawn(move || {
+        let relay = std::thread::Builder::new().spawn(move || {
             let mut buf = [0u8; 16384];
             loop {
                 match cl_r.read(&mut buf) { Ok(0) | Err(_) => break, Ok(n) => { let _ = up_w.write_all(&buf[..n]); } }
@@ -137,6 +151,7 @@ fn spawn_proxy(upstream: SocketAddr, ws: bool, quota: usize) -> SocketAddr {
             let _ = up_w.shutdown(Shutdown::Both);
             let _ = cl_r.shutdown(Shutdown::Both);
         });
+        if relay.is_err() { return; }
         // server -> client: delimit, forward, count
         let (mut up_r, mut cl_w) = (up, cl);
         up_r.set_read_timeout(Some(Duration::from_secs(20))).ok();
@@ -159,8 +174,8 @@ fn spawn_proxy(upstream: SocketAddr, ws: bool, quota: usize) -> SocketAddr {
             if counts { count += 1; if count >= quota { break; } }
         }
         cut(&up_r, &cl_w);
-    });
-    addr
+    })?;
+    Ok(addr)
 }
 
 // ---- one pull -----------------------------------------------------------------
@@ -214,13 +229,16 @@ fn exec_case(c: &Case, dir: &Path) -> Res {
     let fail = c.fault.strip_prefix("prod:").map(|k| p(k) as usize);
     let cutq = c.fault.strip_prefix("cut:").map(|j| p(j) as usize + 1); // + the open response
     let reject = c.fault == "reject";
-    let (tcp, ws) = servers(c.chunk, c.comp);
-    let key = register(&c.stream, fail);
+    let (tcp, ws) = match servers(c.chunk, c.comp) { Ok(x) => x, Err(e) => return Res::Crash(format!("setup:servers:{}", e.kind())) };
     let is_ws = c.tr == "ws";
-    let addr = match cutq { Some(q) => spawn_proxy(if is_ws { ws } else { tcp }, is_ws, q), None => if is_ws { ws } else { tcp } };
+    let addr = match cutq {
+        Some(q) => match spawn_proxy(if is_ws { ws } else { tcp }, is_ws, q) { Ok(a) => a, Err(e) => return Res::Crash(format!("setup:proxy:{}", e.kind())) },
+        None => if is_ws { ws } else { tcp },
+    };
+    let key = register(&c.stream, fail);
     let r: Result<Option<Vec<u8>>, RepeError> = match c.pu.as_str() {
         "file" | "bevefile" | "zstfile" | "trailer" | "value" => {
-            let client = match Client::connect(addr) { Ok(x) => x, Err(e) => { unregister(&key); return Res::Crash(format!("connect:{}", e.kind())) } };
+            let client = match Client::connect(addr) { Ok(x) => x, Err(e) => { unregister(&key); return Res::Crash(format!("setup:connect:{}", e.kind())) } };
             match c.pu.as_str() {
                 "file" => pull_to_file(&client, &key, &dst).map(|_| None),
                 "bevefile" => pull_to_beve_file(&client, &key, &dst).map(|_| None),
@@ -240,26 +258,40 @@ fn exec_case(c: &Case, dir: &Path) -> Res {
             let out = runtime().block_on(async {
                 tokio::time::timeout(Duration::from_secs(15), async {
                     if is_ws {
-                        let client = WebSocketClient::connect(&format!("ws://{addr}/repe")).await.map_err(RepeError::Io)?;
-                        pull_async(&client, c, &key, &dst, reject).await
+                        let client = match WebSocketClient::connect(&format!("ws://{addr}/repe")).await { Ok(x) => x, Err(e) => return Err(format!("setup:connect:{}", e.kind())) };
+                        Ok(pull_async(&client, c, &key, &dst, reject).await)
                     } else {
-                        let client = AsyncClient::connect(addr).await.map_err(RepeError::Io)?;
-                        pull_async(&client, c, &key, &dst, reject).await
+                        let client = match AsyncClient::connect(addr).await { Ok(x) => x, Err(e) => return Err(format!("setup:connect:{}", e.kind())) };
+                        Ok(pull_async(&client, c, &key, &dst, reject).await)
                     }
                 }).await
             });
-            match out { Ok(r) => r, Err(_) => { unregister(&key); return Res::Crash("timeout".into()) } }
+            match out { Ok(Ok(r)) => r, Ok(Err(s)) => { unregister(&key); return Res::Crash(s) } Err(_) => { unregister(&key); return Res::Crash("timeout".into()) } }
         }
     };
     unregister(&key);
     match r { Ok(v) => Res::Ok(v), Err(_) => Res::Err }
 }
 
+// ---- panics: keep the message ------------------------------------------------------
+
+fn last_panic() -> &'static Mutex<String> { static P: OnceLock<Mutex<String>> = OnceLock::new(); P.get_or_init(|| Mutex::new(String::new())) }
+fn install_panic_hook() {
+    static ONCE: std::sync::Once = std::sync::Once::new();
+    ONCE.call_once(|| std::panic::set_hook(Box::new(|info| {
+        let msg = info.payload().downcast_ref::<&str>().map(|s| s.to_string()).or_else(|| info.payload().downcast_ref::<String>().cloned()).unwrap_or_default();
+        let loc = info.location().map(|l| format!("{}:{}", l.file(), l.line())).unwrap_or_default();
+        let clean: String = format!("{loc}:{msg}").chars().map(|c| if c.is_ascii_alphanumeric() || "/.:-_".contains(c) { c } else { '_' }).take(160).collect();
+        *last_panic().lock().unwrap() = clean;
+    })));
+}
+fn panic_token() -> String { format!("panic:{}", last_panic().lock().unwrap()) }
+
 // ---- kills: the pull in a child process -------------------------------------------
 
 fn child_pull_main(line: &str, dir: &str) -> ! {
     unsafe { let lim = libc::rlimit { rlim_cur: 0, rlim_max: 0 }; libc::setrlimit(libc::RLIMIT_CORE, &lim); }
-    std::panic::set_hook(Box::new(|_| {}));
+    install_panic_hook();
     let c = parse_case(line);
     let mut it = c.fault.split(':'); it.next();
     let point = format!("svs.{}", it.next().unwrap());
@@ -269,7 +301,7 @@ fn child_pull_main(line: &str, dir: &str) -> ! {
         if name == point && hits.fetch_add(1, Ordering::SeqCst) + 1 == nth { std::process::abort(); }
     });
     let r = guard(std::panic::AssertUnwindSafe(|| exec_case(&c, Path::new(dir))));
-    let out = match r { Ok(Res::Ok(_)) => "res=ok".to_string(), Ok(Res::Err) => "res=err".into(), Ok(Res::Crash(s)) => format!("crash={s}"), Err(()) => "crash=panic".into() };
+    let out = match r { Ok(Res::Ok(_)) => "res=ok".to_string(), Ok(Res::Err) => "res=err".into(), Ok(Res::Crash(s)) => format!("crash={s}"), Err(()) => format!("crash={}", panic_token()) };
     println!("{out}");
     std::io::stdout().flush().ok();
     std::process::exit(0);
@@ -292,7 +324,11 @@ fn run_in_child(line: &str, dir: &Path) -> Result<String, String> {
     if let Some(sig) = status.signal() { return if sig == libc::SIGABRT { Ok("killed".into()) } else { Err(format!("child-sig{sig}")) }; }
     let mut out = String::new();
     child.stdout.take().unwrap().read_to_string(&mut out).ok();
-    match out.trim() { "res=ok" => Ok("ok".into()), "res=err" => Ok("err".into()), o => Err(format!("child:{}:{}", status.code().unwrap_or(-1), o.replace(' ', "_"))) }
+    match out.trim() {
+        "res=ok" => Ok("ok".into()), "res=err" => Ok("err".into()),
+        o if o.starts_with("crash=setup:") => Err(o["crash=".len()..].to_string()),
+        o => Err(format!("child:{}:{}", status.code().unwrap_or(-1), o.replace(' ', "_"))),
+    }
 }
 
 // ---- a case -------------------------------------------------------------------
@@ -306,6 +342,18 @@ fn fresh_dir() -> PathBuf {
 }
 
 fn run_case(line: &str) -> String {
+    install_panic_hook();
+    // a failure to set the scene up (no port, no thread, connect refused) is the
+    // sandbox's, not the crate's: try again a few times before reporting it
+    for attempt in 0..6 {
+        let obs = run_case_once(line);
+        if !obs.starts_with("crash=setup:") || attempt == 5 { return obs; }
+        std::thread::sleep(Duration::from_millis(300));
+    }
+    unreachable!()
+}
+
+fn run_case_once(line: &str) -> String {
     let c = parse_case(line);
     let dir = fresh_dir();
     let dst = dir.join("out.bin"); let tmp = dir.join("out.bin.svspart");
@@ -317,7 +365,7 @@ fn run_case(line: &str) -> String {
         match guard(std::panic::AssertUnwindSafe(|| exec_case(&c, &dir))) {
             Ok(Res::Ok(v)) => ("ok".to_string(), v), Ok(Res::Err) => ("err".to_string(), None),
             Ok(Res::Crash(s)) => { let _ = std::fs::remove_dir_all(&dir); return format!("crash={s}"); }
-            Err(()) => { let _ = std::fs::remove_dir_all(&dir); return "crash=panic".into(); }
+            Err(()) => { let _ = std::fs::remove_dir_all(&dir); return format!("crash={}", panic_token()); }
         }
     };
     let obs = if is_value(&c.pu) {
@@ -489,7 +537,7 @@ fn gen_cases(seed: u64, thorough: bool) -> Vec<String> {
     }
 
     // F. random
-    let nrand = if thorough { 6000 } else { 400 };
+    let nrand = if thorough { 15000 } else { 400 };
     for _ in 0..nrand {
         let len = if g.rng.chance(1, 10) { g.rng.range(200, 3000) } else { g.rng.range(0, 120) } as usize;
         let chunk = *g.rng.pick(&[1usize, 2, 3, 4, 5, 7, 8, 16, 31, 64, 1000]);
